@@ -207,3 +207,40 @@ for tname, members in (("fock", {"fock": "t", "polarization": "o"}), ("polarizat
             "env_members": members, "env_list": "Env", "decide": dict(_ENVK_DEC, **{"len(states) == 2": True, "len(states) == 1": False}),
             "ignore_calls": ("self.reorder", "self.fock", "self.polarization"), "havoc_calls": (), "checkpoint_calls": (),
             "expect_state": ("sumops", _ENVK), "expect_layout": ("Env", "Env"), "expect_members": "Env", "min_sites": 1, "properties": ["C06"]})
+
+
+# ---- resize_fock (C10): growing pads the axes of the Fock member with zeros, shrinking (when the guard lets it) cuts them;
+# rows and columns together, every other axis untouched, the stored axis order is still the member order
+def _ctx_resize():
+    return Ctx({"Mem": ("R", "f")})
+
+
+def _resized(sym, how, blk, matrix, other):
+    vs = (gv(**{blk: "i", other: "r"}), gv(**{blk: "j", other: "s"})) if matrix else (gv(**{blk: "i", other: "r"}),)
+    return (f"{how}:{blk}", con([(sym, False, vs)], list(vs)))
+
+
+for level in ("Vector", "Matrix"):
+    for how in ("pad", "cut"):
+        grow = how == "pad"
+        SPECS.append({
+            "function": f"{COMP}::ProductState.resize_fock", "case": f"{level}:{'grow' if grow else 'shrink'}", "level": level, "ctx": _ctx_resize,
+            "env": lambda ctx: {"fock": __import__("vf.pyvc.tensorexec", fromlist=["AMember"]).AMember("f"), "new_dimensions": ("newdim",)}, "fields": _fields,
+            "decide": {"new_dimensions > fock.dimensions": grow, "new_dimensions < fock.dimensions": not grow, "num_quanta >= new_dimensions": False},
+            "ignore_calls": ("self.container",), "havoc_calls": (), "checkpoint_calls": (),
+            "expect_state": _resized("psi" if level == "Vector" else "rho", how, "f", level == "Matrix", "R"),
+            "expect_layout": ("Mem", "one") if level == "Vector" else ("Mem", "Mem"), "expect_members": "Mem", "min_sites": 3, "properties": ["C10"]})
+for fpos, members in (("first", {"fock": "t", "polarization": "o"}), ("second", {"fock": "o", "polarization": "t"})):
+    fb = members["fock"]
+    ob = members["polarization"]
+    for level in ("Vector", "Matrix"):
+        for how in ("pad", "cut"):
+            grow = how == "pad"
+            SPECS.append({
+                "function": f"{ENVF}::Envelope.resize_fock", "case": f"combined:fock-{fpos}:{level}:{'grow' if grow else 'shrink'}", "level": level, "ctx": _ctx_env,
+                "env": lambda ctx: {"new_dimensions": ("newdim",)}, "fields": _fields_env, "env_members": members, "env_list": "Env",
+                "decide": {"self.state is None": False, "new_dimensions > self.fock.dimensions": grow, "new_dimensions < self.fock.dimensions": not grow,
+                           "new_dimensions <= self.fock.dimensions": not grow, "num_quanta >= new_dimensions": False},
+                "ignore_calls": ("self.trace_out", "self.fock", "self.polarization"), "havoc_calls": (), "checkpoint_calls": (),
+                "expect_state": _resized("psi" if level == "Vector" else "rho", how, fb, level == "Matrix", ob),
+                "expect_layout": ("Env", "one") if level == "Vector" else ("Env", "Env"), "expect_members": "Env", "min_sites": 3, "properties": ["C10"]})
